@@ -44,6 +44,18 @@ class Event:
             return self.args[i]
         return default
 
+    def param(self, i=None, name=None, default=None):
+        """argument of a call of a repository function, read through the callee's signature: by position (defaults filled in) or by
+        parameter name, however the call spells it; falls back to the call as written for library callees"""
+        b = self.extra.get("bound")
+        if b is not None:
+            if name is not None and name in b[1]:
+                return b[1][name]
+            if i is not None and i < len(b[0]):
+                return b[0][i]
+            return default
+        return self.arg(i, name, default)
+
     def __repr__(self):
         return f"Event({self.kind} {self.name} @{getattr(self.node, 'lineno', '?')})"
 
@@ -168,6 +180,22 @@ class Interp:
         return ev
 
     # ------------------------------------------------------------------ calling repo functions
+    def signature_view(self, f, args, kwargs):
+        """a call as the callee's signature spells it: ([every positional parameter in order, defaults filled in], {name: value} for all
+        parameters); None for *args / **kwargs callees"""
+        a_ = f.node.args
+        if a_.vararg or a_.kwarg:
+            return None
+        try:
+            env_ = self.bind_params(f.node, list(args), dict(kwargs), f.bound, f.module, f.qual)
+        except Unsupported:
+            return None
+        names_ = [p_.arg for p_ in a_.posonlyargs + a_.args]
+        decos = {ast.unparse(d) for d in f.node.decorator_list}
+        if names_ and names_[0] in ("self", "cls") and "staticmethod" not in decos and (f.bound is not None or "classmethod" in decos):
+            names_ = names_[1:]
+        return [env_[p_] for p_ in names_], {**{p_: env_[p_] for p_ in names_}, **{p_.arg: env_[p_.arg] for p_ in a_.kwonlyargs}}
+
     def bind_params(self, fnode, args, kwargs, bound, module, qual):
         env = {}
         a = fnode.args
@@ -641,6 +669,12 @@ class Interp:
                     (x is None and y is None) or (x is not None and y is not None and x.sym == y.sym and x.n == y.n and x.off == y.off)
                     for x, y in zip(ax_a, ax_b)):
                 j_.axes = list(ax_a)  # two index functions over the same grid: still an index function over that grid
+            elif (ax_a is None) != (ax_b is None):
+                # an index function joined with a constant array (np.ones(shape) on an early-return path): the constant is the same at every
+                # index, so the join is an index function over the other side's grid
+                const_side, grid_side = (a, ax_b) if ax_a is None else (b, ax_a)
+                if getattr(const_side, "alloc", None) in ("ones", "zeros", "full") and tm.is_const(const_side.term) and all(x is not None for x in grid_side):
+                    j_.axes = list(grid_side)
             return j_
         if isinstance(a, Arr) and isinstance(b, Arr) and len(a.cols) == len(b.cols):
             return Arr([mk("ite", cterm, x, y) for x, y in zip(a.cols, b.cols)], a.ndim, a.space or b.space)
@@ -914,18 +948,25 @@ class Interp:
         return Func(fr.fn + ".<lambda>", fr.module, fd, closure=fr.env)
 
     def _comp(self, node, fr, elt_fn):
-        gen = node.generators[0]
-        if len(node.generators) != 1:
-            raise Unsupported("nested comprehension", node)
-        it = self.eval(gen.iter, fr)
-        items = self.iter_items(it)
         sub = Frame_(fr.fn, fr.module, dict(fr.env), fr.owner_cls)
+        return self._comp_level(node, list(node.generators), sub, elt_fn)
+
+    def _comp_level(self, node, gens, sub, elt_fn):
+        """one `for` clause of a comprehension (the later clauses nest inside it): -> (list of elements | None, generic element | None, iterable)"""
+        gen = gens[0]
+        it = self.eval(gen.iter, sub)
+        items = self.iter_items(it)
         if items is None:
             elem = self.lib.generic_element(self, it, node)
             self.assign(gen.target, elem, sub, node)
             self.loop_depth += 1
             try:
-                v = elt_fn(sub)
+                if len(gens) > 1:
+                    out2, v, _ = self._comp_level(node, gens[1:], sub, elt_fn)
+                    if out2 is not None:
+                        raise Unsupported("comprehension: enumerated clause nested in a clause over an unknown number of elements", node)
+                else:
+                    v = elt_fn(sub)
             finally:
                 self.loop_depth -= 1
             return None, v, it
@@ -938,7 +979,14 @@ class Interp:
                 if t is None:
                     raise Unsupported("comprehension filter on unknown value", node)
                 ok = ok and t
-            if ok:
+            if not ok:
+                continue
+            if len(gens) > 1:
+                out2, v2, _ = self._comp_level(node, gens[1:], sub, elt_fn)
+                if out2 is None:
+                    raise Unsupported("comprehension: clause over an unknown number of elements nested in an enumerated clause", node)
+                out.extend(out2)
+            else:
                 out.append(elt_fn(sub))
         return out, None, it
 
@@ -1032,8 +1080,17 @@ class Interp:
     def _call(self, f, args, kwargs, node, fr):
         if isinstance(f, Func):
             name = "cryocat." + f.qual
-            self.record("call", name, args, dict(kwargs), node)
+            ev_ = self.record("call", name, args, dict(kwargs), node)
+            ev_.extra["bound"] = self.signature_view(f, args, kwargs)
+            if ev_.extra["bound"] is not None:
+                # rules read the call through the callee's signature (position or name, defaults filled in), however it is spelled
+                ev_.extra["as_written"] = (ev_.args, ev_.kwargs)
+                ev_.args, ev_.kwargs = list(ev_.extra["bound"][0]), dict(ev_.extra["bound"][1])
             if name in self.summaries:
+                # a summary reads the call as its callee's signature spells it: every parameter by position (defaults filled in) and by name
+                b_ = ev_.extra["bound"]
+                if b_ is not None:
+                    args, kwargs = list(b_[0]), dict(b_[1])
                 return self.summaries[name](self, args, kwargs, node, fr)
             if f.qual in self.no_inline:
                 return Unk(call(name, *[to_term(a) for a in args], *[to_term(v) for v in kwargs.values()]),
